@@ -2,7 +2,7 @@ from common import KERNEL, CORR
 
 PROP = dict(
     level="proof",
-    generators=["C06"],
+    generators=["C06", "C12", "C09"],   # RTP packer and TS packer ops too: the RTSP and TS outputs are built by them
     trusted_base=[
         KERNEL, CORR,
         "Spec/Demux.lean is the reading of 'standards-conforming demuxer' used end to end: per-PID PES reassembly over Spec/TsSpec (ISO/IEC 13818-1; "
